@@ -872,6 +872,13 @@ def c06_league(res, rng, kind, ngames, games):
     model = MODEL_CLS[kind](beta=beta, kappa=kappa, tau=tau, limit_sigma=ls_model)
     default = (25.0 * sc, 25.0 / 3.0 * sc)
     pool = [model.rating(*(default if rng.random() < 0.6 else (rng.gauss(25, 8) * sc, rng.uniform(1, 9) * sc))) for _ in range(nplayers)]
+    if rng.random() < 0.3:
+        # a settled league under a large additive dynamics factor: what tau adds outweighs what a game takes away, so the bound
+        # sqrt(prior^2 + tau^2) is tight and any tau other than the one in force shows
+        tau = beta / rng.choice([3, 5, 10])
+        model.tau = tau
+        pool = [model.rating(rng.gauss(25, 3) * sc, rng.uniform(0.05, 0.5) * sc) for _ in range(nplayers)]
+        res.count("settled_leagues")
     acc = [p.sigma ** 2 for p in pool]       # sigma_0^2 + sum of tau_g^2
     for gi in range(ngames):
         if rng.random() < 0.2:
@@ -1140,10 +1147,21 @@ def c08_gen(rng):
             if tau == 0.0:
                 tau = beta / 50
         teams.append(t)
+    alias = False
+    if rng.random() < 0.15:
+        teams[-1] = list(teams[0])          # the same squad entered twice (predictions: as one list object)
+        alias = True
     dense = random_weak_order(rng, n)
     oc = rng.choice([("R", dense), ("S", dense), ("N", None)])
-    return make_game(kind, teams, oc=oc, beta=beta, kappa=kappa, tau=tau, ls=rng.random() < 0.2,
-                     gamma=rng.choice(gen.GAMMAS))
+    tauopt = None
+    if mode == "zero-sigma" and rng.random() < 0.5:
+        # tau > 0 in force through the per-call argument only (the model's own tau is 0), or the other way round
+        tauopt, tau = (tau, 0.0) if rng.random() < 0.7 else (0.0 if False else tau * 2, tau)
+    g = make_game(kind, teams, oc=oc, beta=beta, kappa=kappa, tau=tau, ls=rng.random() < 0.2,
+                  gamma=rng.choice(gen.GAMMAS), tauopt=tauopt)
+    if alias:
+        g["alias"] = True
+    return g
 
 
 def predict_all(g):
@@ -1163,7 +1181,10 @@ def c08_one(res, g, games):
     if out is not None and not all(math.isfinite(x) for t in out for p in t for x in p):
         res.fail("property", "C08: rate returned a non-finite number", inp)
     try:
-        pw, pd, pr = predict_all(g)
+        import p_pred
+        pw, pd, pr = p_pred.impl_pred(g)
+        if len(pw) != len(g["teams"]) or len(pr) != len(g["teams"]):
+            res.fail("property", "C08: a prediction returned %d / %d entries for %d teams" % (len(pw), len(pr), len(g["teams"])), inp)
         nums = list(pw) + [pd] + [p for (_, p) in pr]
         if not all(math.isfinite(x) for x in nums):
             res.fail("property", "C08: a prediction is not finite: %r" % (nums,), inp)
@@ -1400,6 +1421,16 @@ def c16(res):
     for _ in range(size(res, 60, 400)):
         g = gen_game(rng, kind=rng.choice(KINDS), stratum="lowedge", options=False)
         res.case(g); res.count("lowedge_games")
+        c16_one(res, g, rng, games)
+    # the ends of the unit range: settled players (sigma 1e-4..1e-2 beta, tau 0) in a micro unit (beta ~ 4e-3) or a mega unit
+    # (beta ~ 4e3), rescaled by 1e-3 / 1e3: an absolute threshold anywhere in the update shows here
+    for _ in range(size(res, 60, 300)):
+        beta = core.DEFAULTS["beta"] * rng.choice([1e-3, 1e3])
+        n = rng.randint(2, 4)
+        teams = [[(rng.gauss(25, 8) * beta / core.DEFAULTS["beta"], beta * 10 ** rng.uniform(-4, -2)) for _ in range(rng.randint(1, 3))] for _ in range(n)]
+        g = make_game(rng.choice(["PL", "BTF", "BTP"]), teams, oc=("R", random_weak_order(rng, n)), beta=beta, kappa=rng.choice([1e-4, 1e-6]), tau=0.0,
+                      gamma=rng.choice(gen.GAMMAS))
+        res.case(g); res.count("unit_range_end_games")
         c16_one(res, g, rng, games)
     res.rule = ("each game rescaled by k in {1e-3, 1e3, 2, 10^U(-3,3)} (mu, sigma, beta, tau; kappa and the degree-0 gamma callbacks "
                 "unchanged): posterior/k compared with the original (PL, BT full/part), predictions compared (all models); equal-size "
